@@ -12,6 +12,7 @@ from fractions import Fraction as F
 
 from harness import fr
 from harness.props import netlist_common as nc
+from harness.props import netlist_boundary as nb
 from harness.props.netlist_common import val, close
 
 HEADER = nc.HEADER
@@ -50,7 +51,14 @@ def rkey(x, y, w, h, region, fixed):
 
 
 def strict_wf(doc) -> bool:
-    """A restatement of the format for plainly written documents (used for shrunk cases only)."""
+    """A restatement of the format for plainly written documents (used for shrunk cases and near misses only)."""
+    try:
+        return _strict_wf(doc)
+    except Exception:
+        return False
+
+
+def _strict_wf(doc) -> bool:
     import re
     if not isinstance(doc, dict) or "Modules" not in doc or set(doc) - {"Modules", "Nets"}:
         return False
@@ -59,7 +67,7 @@ def strict_wf(doc) -> bool:
         return False
     num = lambda x: nc.is_num(x)
     for name, i in mods.items():
-        if not re.fullmatch(r"[A-Za-z_][A-Za-z0-9_]*", name) or not isinstance(i, dict) or set(i) - KNOWN:
+        if not nc.is_ident(name) or not isinstance(i, dict) or set(i) - KNOWN:
             return False
         rs = i.get("rectangles", [])
         if "rectangles" in i and (not isinstance(rs, list) or not rs or not all(
@@ -123,10 +131,12 @@ def oracle(case, obs):
             return None
     elif exp == "accept" and obs["verdict"] != "ok":
         if not case.get("shrunk") or strict_wf(doc):
-            return f"well-formed-rejected: {obs['verdict']}: {obs.get('msg', '')[:200]}"
+            return f"well-formed-rejected{scale_suffix(doc, obs)}: {obs['verdict']}: {obs.get('msg', '')[:200]}"
         return None
     if obs["verdict"] != "ok":
         return None
+    if exp == "" and not strict_wf(doc):
+        return None         # a deviation outside the property's list was loaded: the definitions need not apply
     n1 = obs["n1"]
     mods = nc.mods_of(doc)
     if [m["name"] for m in n1["modules"]] != list(mods):
@@ -190,6 +200,21 @@ def oracle(case, obs):
     return None
 
 
+def scale_suffix(doc, obs) -> str:
+    """names the class of the finding C05/well-formed-rejected-small-scale (repaired by 6ca12a9): 'Not all flip modules have a STOG'
+    on a document whose smallest dimension is so far below its coordinates that the distance tolerance derived from
+    it (1e-12 times that dimension) is absorbed when added to a coordinate"""
+    if "Not all flip modules have a STOG" not in obs.get("msg", ""):
+        return ""
+    e = nb.eps_of(doc)
+    coords = [float(val(v)) for i in nc.mods_of(doc).values() if isinstance(i, dict) for r in nc.rects_of(i)
+              if isinstance(r, list) for v in r[:4] if nc.numlike(v)]
+    if e is None or not coords:
+        return ""
+    big = max(abs(c) for c in coords)
+    return "-small-scale" if big - e[0] == big or big + e[0] == big else ""
+
+
 def failure_key(case, why):
     head = (why or "").split(":")[0].strip()
     if " " in head or not head:
@@ -203,18 +228,92 @@ def shrink(case):
         yield c
 
 
+def valid_boundary(rng):
+    """a well-formed document rewritten into an equally well-formed one on some boundary (stream name, document)"""
+    doc = nc.gen_doc(rng)
+    r = rng.random()
+    if r < 0.4:
+        return "exact-boundary", nb.decorate(rng, doc)[0]
+    if r < 0.55:
+        return "exact-names", nb.family_names(rng, doc)
+    if r < 0.75:
+        return "exact-order", nb.reorder(rng, doc)[0]
+    return "exact-coincidence", nb.coincide(rng, doc)[0]
+
+
 def gen_case(rng, quick=True):
     r = rng.random()
-    if r < 0.55:
+    if r < 0.25:
         return {"stream": "exact", "expect": "accept", "exact": True, "doc": nc.gen_doc(rng)}
-    if r < 0.65:
+    if r < 0.50:
+        stream, doc = valid_boundary(rng)
+        return with_form(rng, {"stream": stream, "expect": "accept", "exact": True, "doc": doc})
+    if r < 0.57:
         return {"stream": "decimal", "expect": "accept", "exact": False, "doc": nc.gen_doc(rng, decimal=True)}
+    if r < 0.65:
+        vs = list(nb.near_misses(rng, nc.gen_doc(rng, quirks=False)))
+        tag, d = rng.choice(vs)
+        return with_form(rng, {"stream": "near-miss", "tag": tag, "expect": "", "exact": True, "doc": d})
     for _ in range(50):
         cls = rng.choice(nc.CLASSES)
-        d = nc.inject(rng, nc.gen_doc(rng, quirks=False), cls)
-        if d is not None:
-            return {"stream": "malformed", "expect": "reject:" + cls, "exact": True, "doc": d}
+        base = nc.gen_doc(rng, quirks=False)
+        if rng.random() < 0.5:
+            d = nc.inject(rng, base, cls)
+            if d is not None:
+                return {"stream": "malformed", "expect": "reject:" + cls, "exact": True, "doc": d}
+        else:
+            vs = list(nb.variants(rng, base, cls, per_kind=8))
+            if vs:
+                tag, d = rng.choice(vs)
+                return with_form(rng, {"stream": "boundary", "tag": cls + "/" + tag, "expect": "reject:" + cls,
+                                       "exact": True, "doc": d})
     return {"stream": "exact", "expect": "accept", "exact": True, "doc": nc.gen_doc(rng)}
+
+
+def with_form(rng, case, p_history=0.15):
+    """the input form (the document written by the real write_yaml - default -, the tree itself, a hand-spelled text,
+    the name of a file or an open text stream holding either text) and what the process did before (other loads, the same source twice)"""
+    r = rng.random()
+    if r < 0.18:
+        case["via"] = "tree"
+    elif r < 0.28:
+        case["via"] = rng.choice(["file", "file", "stream"])
+    elif r < 0.50:
+        t = nb.spell(rng, nc.to_py(case["doc"]))
+        if t is not None:
+            case["text"] = t
+            if rng.random() < 0.35:
+                case["via"] = rng.choice(["file", "file", "stream"])
+    if rng.random() < p_history:
+        try:
+            case["history"] = nb.histories(rng, case["doc"])
+        except Exception:
+            case["history"] = [{"doc": nc.gen_doc(rng, quirks=False), "via": "text", "write": True}]
+    if rng.random() < 0.08:
+        case["twice"] = True
+    return case
+
+
+def catalogue(rng, quick):
+    """every boundary instance of every listed class (and every near miss) on documents that have all module kinds;
+    documents of every size around the usual thresholds"""
+    cases = []
+    for b in range(1 if quick else 8):
+        doc = nb.rich_doc(rng)
+        for cls in nc.CLASSES:
+            for tag, d in nb.variants(rng, doc, cls, per_kind=(24 if quick else None)):
+                cases.append(with_form(rng, {"stream": "boundary", "tag": cls + "/" + tag, "expect": "reject:" + cls,
+                                             "exact": True, "doc": d}, p_history=0.05))
+        for tag, d in nb.near_misses(rng, doc):
+            # an abutting / detached extra rectangle on a hard module is a well-formed design
+            # (provided the extra rectangle does not run into a third one)
+            exp = "accept" if tag in ("overlap-touching", "overlap-gap") and nb.hard_overlap_free(nc.seen(d)) else ""
+            cases.append(with_form(rng, {"stream": "near-miss", "tag": tag, "expect": exp, "exact": True, "doc": d},
+                                   p_history=0.05))
+    for cfg in (nb.SIZES_QUICK if quick else nb.SIZES_THOROUGH):
+        cases.append(with_form(rng, {"stream": "size", "tag": " ".join(f"{k}={v}" for k, v in cfg.items()), "expect": "accept",
+                                     "exact": True, "doc": nb.sized_doc(rng, **cfg)}, p_history=0.0))
+    return cases
 
 
 def nontrivial(case):
@@ -222,21 +321,55 @@ def nontrivial(case):
     return nm >= 2 and (nn >= 1 or nr >= 2)
 
 
+def dist_key(c):
+    k = c.get("stream", "?")
+    if (c.get("expect") or "").startswith("reject:"):
+        k += "/" + c["expect"][7:]
+    return k
+
+
 def run(ctx, out, replay=None):
-    n = 1200 if ctx.quick() else 15000
-    out.rule = ("random netlist documents: 1-8 modules over every attribute combination (scalar / per-region area, centre, "
-                "aspect ratio scalar / pair, rectangles with named regions forming STOGs or not, hard, flip, fixed, terminal "
-                "with/without centre, redundant false flags, bool-as-number), nets of arity 2-6 with/without weight, dyadic "
-                "numbers; 35% carry one injected defect of a listed class at a random position; 10% decimal (oracle only); "
+    n = 1200 if ctx.quick() else 8000
+    out.rule = ("(a) catalogue: on documents holding every kind of module, every boundary instance of every listed defect "
+                "class (harness/props/netlist_boundary.py: zeros of every spelling, False, the smallest negative floats, an "
+                "area equal to the rectangles' on a hard module - number, ground mapping, split over regions, one ulp-ish "
+                "off -, almost-identifiers by suffix / prefix / look-alike (newline, blank, tab, NUL, U+0085, Unicode letters "
+                "and digits, empty, 1e3, ~) for module names, area regions and rectangle regions, keys that are not strings "
+                "(YAML null / true / 12 / 1e3), near-attributes by case / blank / plural, overlaps by a sliver, `rectangles: []`, "
+                "nets whose only other entry is the weight) and every near miss outside the list (verdict left to the model); "
+                "(b) random netlist documents: 1-8 modules over every attribute combination, nets of arity 2-6, dyadic numbers; "
+                "25% rewritten into an equally valid document on a boundary (names null / true / on / _ / area / Modules, names that "
+                "are prefixes of each other - H1, H1_0, H1_io -, extreme weights and areas, ints for floats, modules / nets / "
+                "rectangles / attributes reversed or sorted, rectangles of equal area, a centre equal to the centroid, a soft area "
+                "equal to its rectangles, weight 1 / 1.0 / True); 35% carry one injected defect of a listed class at a random "
+                "position (half of them boundary instances); 8% near misses; 7% decimal (oracle only); (c) sizes: documents with "
+                "9..257 (thorough 1001) modules, nets of 9..65 (257) members, 33..101 (1001) nets, 9..65 (161) rectangles in a "
+                "module, names of 32..4097 (8193) characters, 9..33 (101) regions; (d) input forms: half of the new streams are "
+                "given as the tree itself, as hand-spelled YAML text (1e3, +2, .5, 0x1F, quoted names, ~), as the name of a "
+                "file or as an open text stream; 15% after a history (other designs with the same module names, the design scaled, a rejected variant, the "
+                "design itself - loaded and written in the same process before) and 8% with the same source loaded twice; "
                 "non-trivial = at least two modules and a net or two rectangles; distinct by hash")
     cases = []
     if replay and "case" in replay:
         cases.append(fr.unjson(replay["case"]))
     cases += fr.load_corpus("C05")
+    cases += catalogue(ctx.rng, ctx.quick())
     while len(cases) < n:
         cases.append(gen_case(ctx.rng))
-    fr.run_cases(ctx, out, cases, nc.run_impl, nc.to_coq, oracle, failure_key, HEADER,
-                 dist_key=lambda c: c.get("stream", "?") + ("/" + c["expect"][7:] if (c.get("expect") or "").startswith("reject:") else ""),
-                 nontrivial=nontrivial, shard=100, shrink=shrink)
+    tags = sorted({c["tag"] for c in cases if c.get("stream") == "boundary"})
+    out.extra["boundary_instances"] = len(tags)
+    out.extra["boundary_tags"] = tags
+    out.extra["near_miss_tags"] = sorted({c["tag"] for c in cases if c.get("stream") == "near-miss"})
+    forms, seen_pairs = {}, []
+
+    def run_impl(case):
+        obs = nc.run_impl(case)
+        forms[obs.get("via", "?")] = forms.get(obs.get("via", "?"), 0) + 1
+        seen_pairs.append((case, obs))
+        return obs
+    fr.run_cases(ctx, out, cases, run_impl, nc.to_coq, oracle, failure_key, HEADER,
+                 dist_key=dist_key, nontrivial=nontrivial, shard=100, shrink=shrink)
+    out.extra["input_forms"] = forms
+    nc.reason_stat(ctx, out, seen_pairs[:len(cases)])
     for f in out.failures:      # a shrunk input is filed under the failure it shows
         f["key"] = failure_key(None, f.get("why"))
